@@ -55,3 +55,31 @@ def NM.redecorate (clip0 mkVal : Pt R → Pt R) (zero : R) (k : Nat) (sx : List 
     else (x0, f0) :: (tl.zipIdx.map fun p => (x0.set p.2 ((mkVal x0).getD p.2 zero), p.1.2))
 
 end MysticVerif.Solver
+
+namespace MysticVerif.Solver
+
+variable {R E : Type}
+
+/-- one performed iteration (generation >= 1) of a possibly reconfigured Nelder-Mead run -/
+structure NMGen (R E : Type) where
+  o : Obj (Pt R) E
+  /-- simplex surgery of the re-decorations since the previous iteration (`NM.redecorate`, composed; identity if none) -/
+  pre : List (Pt R × E) → List (Pt R × E)
+  coef : Coef R
+  st : Pt R → Pt R
+  clip0 : Pt R → Pt R
+  mkVal : Pt R → Pt R
+
+/-- the `k`-th performed iteration, `k >= 1`: generation 1 builds the simplex, later ones update it -/
+def NM.genStep [Add R] [Sub R] [Mul R] [Div R] [LT E] [DecidableLT E] [LE E] [DecidableLE E]
+    (g : NMGen R E) (k : Nat) (s : NM R E) : NM R E :=
+  if k = 1 then NM.gen1 g.o g.clip0 g.mkVal { s with simplex := g.pre s.simplex }
+  else (NM.update g.o g.coef g.st { s with simplex := g.pre s.simplex }).1
+
+/-- iterations `k, k+1, ..` each under its own settings -/
+def NM.runFrom [Add R] [Sub R] [Mul R] [Div R] [LT E] [DecidableLT E] [LE E] [DecidableLE E] :
+    List (NMGen R E) → Nat → NM R E → NM R E
+  | [], _, s => s
+  | g :: gs, k, s => NM.runFrom gs (k + 1) (NM.genStep g k s)
+
+end MysticVerif.Solver
